@@ -8,11 +8,16 @@ from rules.oblcommon import obl_rule
 def rules(t):
     out = []
     d = t.fn("packet::Packet::<'a>::decode")
-    dec = list(t.calls(r"crypto::dencrypted_in_place$", d)); adv = list(t.calls(r"ReplayProtection::advance_sequence$", d)); chk = list(t.calls(r"ReplayProtection::already_received$", d))
+    dscope = fn_and_closures(t, d)
+    dec = list(t.calls(r"crypto::dencrypted_in_place$", d)); adv = list(t.calls(r"ReplayProtection::advance_sequence$", d))
+    chk_all = [(c, g) for g in dscope for c in t.calls(r"ReplayProtection::already_received$", g)]
+    chk = [c for c, g in chk_all if g is d]
+    chk_closures = [g for c, g in chk_all if g is not d]
     r = RuleResult("C04.a1", "replay window is consulted before decrypting: already_received() true-edge returns Err(DuplicatedSequence) and decrypt is behind its false edge", floor=1)
-    for c in chk:
+    for c, g_ in chk_all:
         r.site(c)
-        brs = [br for br in t.branches(d) if br["kind"] == "bool" and (t.mentions_call(br["raw"], r"already_received$"))]
+        # the branch that consumes the answer: on the call itself, or on an adaptor (`map_or(false, |w| w.already_received(seq))`) fed with the closure that makes the call
+        brs = [br for br in t.branches(d) if br["kind"] == "bool" and (t.mentions_call(br["raw"], r"already_received$") or any(short(g2.path).split("::")[-1] in fmt(br["raw"]) and "closure" in fmt(br["raw"]) for g2 in chk_closures))]
         ok = False
         for br in brs:
             if t.edge_returns_err(d, br["t_edge"], "DuplicatedSequence") and all(not (x.bb in d.reachable_from([br["t_edge"][1]]) and x.bb not in d.reachable_from([br["f_edge"][1]])) for x in dec): ok = True
@@ -22,7 +27,7 @@ def rules(t):
         if not all(d.dominates(c.bb, x.bb) or not d.reachable_from([c.bb]).__contains__(x.bb) for x in dec): pass
         # ordering: every path from entry to decrypt that passes a window-carrying state passes the check: check dominates decrypt on the window=Some paths;
         # structural form: the check call is reachable before decrypt and not after it
-        if any(c.bb in d.reachable_from([x.node["target"]]) for x in dec): r.bad("order", c, "window check happens after decryption")
+        if g_ is d and any(c.bb in d.reachable_from([x.node["target"]]) for x in dec): r.bad("order", c, "window check happens after decryption")
     out.append(r)
     r = RuleResult("C04.a2", "window advances only after a successful decrypt", floor=1)
     for a in adv:
@@ -31,8 +36,8 @@ def rules(t):
         if not any(t.edge_dominates(d, e, a.bb) for e in oks): r.bad("dom", a, "advance_sequence not dominated by the decrypt Ok-edge")
     out.append(r)
     r = RuleResult("C04.a3", "one sequence value feeds window check, nonce, advance and the returned sequence", floor=3)
-    seqs = [t.arg(c, 1) for c in chk + adv] + [t.arg(x, 1) for x in dec]
-    for c in chk + adv + dec: r.site(c)
+    seqs = [resolved(t, t.arg(c, 1), g) for c, g in chk_all] + [t.arg(c, 1) for c in adv] + [t.arg(x, 1) for x in dec]
+    for c in [c for c, g in chk_all] + adv + dec: r.site(c)
     if len({repr(norm(s)) for s in seqs}) != 1: r.bad("agree", chk[0] if chk else None, "window check / decrypt nonce / advance use different sequence values: " + " | ".join(sorted({fmt(s)[:50] for s in seqs})))
     if seqs and not t.mentions_call(seqs[0], r"read_sequence$"): r.bad("src", None, "sequence is not the value read from the packet")
     out.append(r)
@@ -64,7 +69,7 @@ def rules(t):
         wroot = re.sub(r"\.replay_protection\}?$", "", fmt(win[3][0]).lstrip("&*"))
         if kroot != wroot: r.bad(f"{s.fn.path}|root", s, f"key and window belong to different objects: {kroot[:50]} vs {wroot[:50]}")
     out.append(r)
-    r = RuleResult("C04.d", "payload surfaces only for a keyed decode of kind Payload in Connected state, attributed to the same connection", floor=2)
+    r = RuleResult("C04.d", "payload surfaces only for a keyed decode of kind Payload in Connected state, attributed to the same connection", floor=1)
     p = t.fn("NetcodeServer::process_packet_internal")
     for s in t.aggrs("server::ServerResult", "Payload", p):
         r.site(s)
@@ -72,7 +77,9 @@ def rules(t):
         if "find_client_mut_by_addr" not in cid: r.bad("attrib", s, "payload not attributed to the connection found by source address")
         if "as Payload" not in pay or "decode" not in pay: r.bad("src", s, "surfaced bytes are not the decoded Payload packet's")
         st = [br for br in t.branches(p) if br["kind"] == "discr" and fmt(br["on"]).endswith(".state")]
-        if not any(t.edge_dominates(p, (br["bb"], br["targets"].get(2)), s.bb) for br in st if 2 in br["targets"]): r.bad("state", s, "payload surfaced outside ConnectionState::Connected")
+        by_switch = any(t.edge_dominates(p, (br["bb"], br["targets"].get(2)), s.bb) for br in st if 2 in br["targets"])
+        by_eq = any(t.edge_dominates(p, e, s.bb) for e, br in rel_edges(t, p, lambda a: fmt(strip(a)).endswith(".state"), lambda b: "ConnectionState::Connected" in fmt(b), "Eq"))
+        if not (by_switch or by_eq): r.bad("state", s, "payload surfaced outside ConnectionState::Connected")
     c = t.fn("NetcodeClient::process_packet")
     for s in [x for x in t.aggrs("std::option::Option", "Some", c) if x.node["place"]["local"] == 0]:
         r.site(s)
@@ -91,6 +98,8 @@ def rules(t):
         r.site(s)
         g = list(t.find_cmp(a, lambda x: fmt(strip(x)) == "P2(sequence)", lambda y: t.is_field(y, "most_recent_sequence"), None))
         implies_ge = any((op in ("Gt", "Ge") and t.edge_dominates(a, te, s.bb)) or (op in ("Lt", "Le") and t.edge_dominates(a, fe, s.bb)) for br, op, te, fe in g)
+        is_max = isinstance(strip(t.stored(s)), tuple) and strip(t.stored(s))[0] == "call" and method_of(strip(t.stored(s))[1]) == "max" and "most_recent_sequence" in fmt(t.stored(s)) and "P2(sequence)" in fmt(t.stored(s))
+        if is_max: continue
         if fmt(strip(t.stored(s))) != "P2(sequence)" or not implies_ge: r.bad("recent", s, "most_recent_sequence can decrease (store not behind a test implying sequence >= most_recent_sequence)")
     ar = t.fn("ReplayProtection::already_received")
     idx = [fmt(o) for br in t.branches(ar) if br["kind"] == "bool" for o in [br["raw"]] if "received_packet" in fmt(o)]
@@ -120,6 +129,12 @@ def rules(t):
             r.site(Site(ar, br["bb"], 0, ar.blocks[br["bb"]]["term"]), f"{m}: {fmt(br['raw'])[:70]}")
             if m: facts_edges += [(br["t_edge"], m), (br["f_edge"], NEG[m])]
             else: r.bad(f"window-test|{br['cond'][1]}|{fmt(br['cond'][2])[-30:]}|{fmt(br['cond'][3])[-30:]}", Site(ar, br["bb"], 0, ar.blocks[br["bb"]]["term"]), f"unrecognised window test {fmt(br['raw'])[:90]}: membership must be decided by `seq + 256 <= most_recent`, `slot == EMPTY`, `slot >= seq` only")
+    EMPTYV = (1 << 64) - 1
+    for br in t.branches(ar):
+        if br["kind"] == "int" and is_slot(br["on"]) and EMPTYV in br["targets"]:
+            r.site(Site(ar, br["bb"], 0, ar.blocks[br["bb"]]["term"]), "match slot { EMPTY => .. }")
+            facts_edges.append(((br["bb"], br["targets"][EMPTYV]), "empty"))
+            if len(br["targets"]) == 1: facts_edges.append(((br["bb"], br["otherwise"]), "not-empty"))
     def known_at(bb): return {m for e, m in facts_edges if t.edge_dominates(ar, e, bb)}
     for b in ar.blocks:
         if b["i"] not in ar.reach: continue
@@ -141,7 +156,7 @@ def rules(t):
                 else:
                     r.bad("ret-shape", site, f"already_received returns {fmt(o)[:60]}: not a window test")
     out.append(r)
-    r, d = obl_rule("C04.f", "OBL: replay window arithmetic cannot overflow or index out of range", "netcode", floor=4, select=lambda s_: "replay_protection" in s_["fn"])
+    r, d = obl_rule("C04.f", "OBL: replay window arithmetic cannot overflow or index out of range", "netcode", floor=1, select=lambda s_: "replay_protection" in s_["fn"])
     out.append(r)
     out.append(shared.aad_rule(t, "C04.e", "packet"))
     out.append(shared.aead_open_rule(t, "C04.h"))
